@@ -73,7 +73,7 @@ class CallMixin:
         return Ctx(self, fr["params"], self.view(fr["heap"], fr["alloc"]), self.view(), result=result, exc=exc)
 
     def materialise(self, key):
-        if key in self.st.heap:
+        if key in self.st.heap or "." not in key:
             return
         if key.startswith("G."):
             self.ghost_get(key[2:])
@@ -340,7 +340,7 @@ class CallMixin:
         self.res.inlined.add(fdef.qualname)
         frame = self.bind_args(fdef.node, args, kwargs, node)
         self._eval_defaults(frame, fdef.module, [{}])
-        return self.run_body(fdef, fdef.node, frame, [], fdef.module, cls or fdef.cls, node)
+        return self.run_body(fdef, fdef.node, frame, [], fdef.module, fdef.cls or cls, node)
 
     def call_closure(self, c: Closure, args, kwargs, node):
         frame = self.bind_args(c.node, args, kwargs, node)
@@ -453,7 +453,7 @@ class CallMixin:
                     v = kw[n]
                     vals[n] = self.lift_like(v, ty.fields[n]) if isinstance(v, (tuple, list)) else v
             for n in kw:
-                if n not in names:
+                if n not in names and n not in getattr(ty, "skipped", ()):
                     raise Unsupported(f"{ty.name}() unexpected field {n}")
             return ty.mk(**vals)
         # heap object
@@ -535,8 +535,8 @@ class CallMixin:
                 self.assume(lift(con.ensures(c1), TBool))
             if not self.feasible():
                 raise PathEnd()
-            if con.yields is not None:
-                return result
+            if con.modifies is not None:
+                self.crash_point(node, con.qualname)
             return result
         ex = outcomes[i]
         post = con.raises[ex][1]
@@ -545,8 +545,35 @@ class CallMixin:
             self.assume(lift(post(c1), TBool))
         raise RaiseEx(ex, None, node)
 
+    def crash_point(self, node, what):
+        """after a state-mutating call: the crash condition of the function under verification must hold"""
+        top = self.cur_contract
+        if top is None or top.crash is None or self.discovery:
+            return
+        if len(self.fn_stack) != 1:
+            return  # only calls made directly by the function under verification are crash points of *its* contract
+        c = self.make_ctx(top)
+        self.oblige("crash", lift(top.crash(c), TBool), node, f"crash condition after {what}")
+
     def coerce(self, v, t):
+        from .builtins_ import _EmptySet
+
+        if isinstance(v, _EmptySet):
+            if isinstance(t, TSet):
+                return t.empty()
+            raise Unsupported(f"set() where {t} expected")
+        if isinstance(v, (tuple, list)) and isinstance(t, TSet):
+            s = t.empty()
+            for x in v:
+                s = s.add(self._elem(x, t.elem))
+            return s
+        if isinstance(v, SDict) and not v.items and isinstance(t, TMap):
+            return t.empty()
         if isinstance(v, SV):
+            if isinstance(v.ty, TOpt) and not isinstance(t, TOpt) and v.ty.elem == t:
+                self.oblige("attr", v.ty.is_some(v), self.cur_node, "None where a value is required")
+                self.assume(v.ty.is_some(v))
+                return v.ty.val(v)
             return lift(v, t)
         if isinstance(v, (tuple, list)):
             return self.lift_like(v, t)
